@@ -154,7 +154,21 @@ def run_case(case):
     nx, ny = int(rng.integers(3, 7)) * 2, int(rng.integers(3, 7)) * 2
     ztop = float(zm * rng.uniform(1.0, 2.0))
     dx = float(zm * rng.uniform(0.8, 6.0))
-    dy = float(dx * rng.choice([0.6, 0.75, 1.5, 1.8]))
+    ry = float(rng.choice([0.6, 0.75, 1.5, 1.8]))
+    if case["idx"] % 3 == 0:
+        # fine cells: the cell size is tuned so that the highest retained components reach the upper end of the stated range
+        # (shooting growth 13 .. 18.5 on the coarsest grid, which must still resolve them: 32 layers)
+        n0 = 32
+        target = float(rng.uniform(15.5, 22.0))  # at the Nyquist corner; the compared (non-Nyquist) components reach about 0.85 of it
+        zc0 = gen.vgrid(gridk, z0, ztop, n0)
+        pr0 = fam(zc0)
+        for _ in range(3):
+            g_ = gen.growth(zc0, pr0, np.pi / dx, np.pi / (dx * ry))
+            dx = float(dx * g_ / target)
+    elif case["idx"] % 8 == 5:
+        # regional domains (tens to thousands of kilometres): every retained component is long compared with the column
+        dx = float(zm * 10 ** rng.uniform(2.5, 4.5))
+    dy = float(dx * ry)
     dom = (nx * dx, ny * dy)
     KX, KY, ok = oracles.mode_wavenumbers(nx, ny, dom[0] / nx, dom[1] / ny)
     # preconditions per mode on the coarsest grid
@@ -245,7 +259,9 @@ def run_case(case):
                 viol.append(dict(what="error_does_not_shrink_with_layer_thickness", field=nm, refinement=k, coarse=a, fine=b_, bound=bound, **ctx))
     if hviol:
         viol.append(dict(hviol, **ctx))
-    b = {f"halo_clause:{halo_note}": 1, f"wind:{fam.d['wind']}": 1, f"K:{fam.d['K']}": 1, f"grid:{gridk}": 1, f"n0:{n0}": 1, f"refinements:{len(mults)}": 1}
+    Gmax = float(np.max(G[good]))
+    b = {f"halo_clause:{halo_note}": 1, f"max_growth_compared:{'<6' if Gmax < 6 else '6-12' if Gmax < 12 else '12-15' if Gmax < 15 else '15-18'}": 1,
+         f"veer:{'yes' if fam.d.get('veer') else 'no'}": 1, f"extent:{'>60km' if max(dom) > 6e4 else '<=60km'}": 1, f"wind:{fam.d['wind']}": 1, f"K:{fam.d['K']}": 1, f"grid:{gridk}": 1, f"n0:{n0}": 1, f"refinements:{len(mults)}": 1}
     return {"evals": len(mults) * nmodes * 3 * 2, "nontrivial": True, "sig": f"{case['idx']}", "buckets": b, "resid": resid,
             "counters": {"solver_calls": len(mults), "riccati_integrations": 1, "modes_compared": nmodes,
                          "modes_skipped_by_precondition": int((~good).sum())},
